@@ -456,6 +456,28 @@ class BlobWorld:
         self._after_pack(self.s.lastTransaction())
         return 'pack'
 
+    def undo2(self):
+        """Undo the two newest transactions, newest first, in ONE undo transaction (a blob written by both gets two
+        records and two file stores under one id: the last one counts)."""
+        if len(self.history) < 2 or self.touched or self.sps or self.kind == 'mapping':
+            return None
+        (t1, c1), (t2, c2) = self.history[-2], self.history[-1]
+        if t2 != self.s.lastTransaction():
+            return None
+        if any(v is None for c in (c1, c2) for pair in c.values() for v in pair):
+            # a creation and its undoing in ONE undo transaction: outside this step (the copy made for the re-creation
+            # stays as a file without a revision until the next pack - noted in DESIGN.md section 7)
+            return None
+        import base64
+        self.db.undoMultiple([base64.encodebytes(t2).rstrip(), base64.encodebytes(t1).rstrip()], self.tm.get())
+        self.tm.commit()
+        combined = {}
+        for name, (prev, new) in c1.items():
+            combined[name] = (prev, new)
+        for name, (prev, new) in c2.items():
+            combined[name] = (combined[name][0] if name in combined else prev, new)
+        return self._undo_model(t1, combined, 'undo2')
+
     def undo2_fail(self):
         """Undo the two newest transactions in ONE transaction whose commit then fails at another participant's
         vote: nothing changes, and no blob file of the failed undo transaction remains."""
@@ -664,6 +686,8 @@ def _step(w, code, other):
         return w.pack()
     if code == 'pack_mid':
         return w.pack_mid()
+    if code == 'undo2':
+        return w.undo2()
     if code == 'undo2_fail':
         return w.undo2_fail()
     if code.startswith('conflict'):
@@ -686,7 +710,7 @@ def _run(codes, kind, other, fault=None):
             trace.append(t)
             where = ' '.join(trace)
             w.check_view(where)
-            if code in ('commit', 'abort', 'undo', 'undo_older', 'pack', 'pack_mid', 'undo2_fail') or code.startswith(('fail_', 'conflict')):
+            if code in ('commit', 'abort', 'undo', 'undo2', 'undo_older', 'pack', 'pack_mid', 'undo2_fail') or code.startswith(('fail_', 'conflict')):
                 w.check_disk(where)
                 w.check_other(where)
             elif code in ('savepoint', 'rollback'):
@@ -748,13 +772,13 @@ def h_directed_sp(a: int, b: int, c: int, extra_sp: bool, end_commit: bool, kind
     reached()
 
 
-def h_directed_undo_pack(u1: bool, w3: bool, u2: bool, with_new: int, packsel: int, other: bool, kind: str) -> None:
+def h_directed_undo_pack(u1: bool, w3: bool, u2: bool, with_new: int, packsel: int, other: bool, kind: str, m2: bool = False) -> None:
     """write, commit, write, commit, [undo], [write, commit], [undo], then pack to now / to an earlier time /
     not at all: the blob files on disk are exactly those of the revisions that remain."""
     pk = ['pack', 'pack_mid', 'nothing', 'undo2_fail', 'undo_older'][choose(packsel, 5)]
     wn = choose(with_new, 3)          # a second blob created in the first (1) or second (2) transaction, or not at all
     codes = (['new'] if wn == 1 else []) + ['rewrite0', 'commit'] + (['new'] if wn == 2 else []) + ['append0', 'commit'] + (['undo'] if u1 else []) + (['consume0', 'commit'] if w3 else []) \
-        + (['undo'] if u2 else []) + [pk]
+        + (['undo'] if u2 else []) + (['undo2'] if m2 else []) + [pk]
     codes = [x for x in codes if x != 'nothing']
     with untraced():
         _run(codes, kind, other)
@@ -1023,11 +1047,11 @@ HARNESSES = [
     Harness('directed_undo_pack', h_directed_undo_pack,
             decides='write/commit/undo chains followed by a pack to now or to an earlier time: the *.blob files are exactly those of the '
                     'revisions the pack keeps (undo revisions included), bytes identical',
-            symbolic='3 booleans (undo / further write / second undo), selector for a second blob created in the first/second transaction, final step selector (pack to now / two transactions back / nothing / an undo of the two newest transactions whose commit fails at the vote)',
+            symbolic='4 booleans (undo / further write / second undo / an undo of the two newest transactions in one transaction), selector for a second blob created in the first/second transaction, final step selector (pack to now / two transactions back / nothing / an undo of the two newest transactions whose commit fails at the vote)',
             bounds='programs of 5-10 steps of this shape', oracle='blob revision model',
             code=['FileStorage.undo (blob copy)', 'fspack.copyDataRecords (blob_removed)', 'FileStorage._remove_blob_files_tagged_for_removal_during_pack',
                   'BlobStorage._packNonUndoing/_packUndoing'],
-            quick=dict(timeout=150, shards=shards(kind=['file', 'mapping', 'proxy'])), thorough=dict(timeout=300, shards=shards(kind=['file', 'mapping', 'proxy']))),
+            quick=dict(timeout=400, shards=shards(kind=['file', 'mapping', 'proxy'])), thorough=dict(timeout=700, shards=shards(kind=['file', 'mapping', 'proxy']))),
     Harness('directed_unlink_pack', h_directed_unlink_pack,
             decides='a blob unlinked from the root and written again later (linked again or not): after a pack to any transaction '
                     'boundary the files of all revisions written after the pack time exist, those of superseded / garbage revisions are gone',
